@@ -31,7 +31,9 @@ type C20Plan struct {
 	Direct []int     `json:"direct"` // codes waited for by direct Server.Wait callers
 	// Sibling: codes of requests sent over a connection to ANOTHER agent of the same process (its own shim, its
 	// own underlying agent): they are not requests received by the agent the waiters wait on
-	Sibling  []int          `json:"sibling,omitempty"`
+	Sibling []int `json:"sibling,omitempty"`
+	// Local: the served agent is a local-mode server (slot operations allowed; the tool path is a file that does not exist)
+	Local    bool           `json:"local,omitempty"`
 	Strategy sched.Strategy `json:"strategy"`
 }
 
@@ -89,6 +91,7 @@ func genC20(r *sim.Rng, tier string) any {
 			p.Sibling = append(p.Sibling, code)
 		}
 	}
+	p.Local = r.Bool(0.3)
 	total := len(p.Sibling)
 	for _, c := range p.Conns {
 		total += len(c)
@@ -321,7 +324,7 @@ func execC20(t *testing.T, raw json.RawMessage) *sim.Outcome {
 			return
 		}
 		srv = shim.(*shimagent.Server)
-		yubi := yubiagent.VerifNewServer(shim, "", true)
+		yubi := yubiagent.VerifNewServer(shim, "/nonexistent/yubico-piv-tool", !p.Local)
 		for ci := range p.Conns {
 			ci := ci
 			cc, sc := schedconn.Pipe(fmt.Sprintf("conn%d", ci))
